@@ -374,9 +374,7 @@ def generate(out_dir):
            "import RelicVerif.Model.CtLang\n\nnamespace Relic.Gen.Ct\nopen Relic.Model.CtLang\n\n" + "\n".join(parts) +
            "\ndef all (w : Nat) : List Prog := [%s]\n\nend Relic.Gen.Ct\n" % ", ".join("%s w" % n for n, _, _ in PRIMS))
     path = os.path.join(out_dir, "Ct.lean")
-    old = open(path).read() if os.path.exists(path) else None
-    if old != txt:
-        open(path, "w").write(txt)
+    __import__("relicbuild").write_if_changed(path, txt)
     return {"obligations": obligations, "failures": failures}
 
 
